@@ -6,7 +6,7 @@
 From Coq Require Import List Arith ZArith Bool Permutation.
 Import ListNotations.
 From KV Require Import Model.Greedy Proofs.GreedyP.
-Open Scope Z_scope.
+Local Open Scope Z_scope.
 
 (* the checker is sound for the rule: layers in non-increasing total cost,
    each on a least-loaded group; inside it factors in non-increasing cost, each
